@@ -22,6 +22,8 @@ structure JSt where
   storage : String := "none"
   retryMax : Nat := 1200
   crcOn : Bool := true
+  /-- C04: the validation setting in force for the consumer (the builder's last word, else the handed-in client's, else on) -/
+  consCrc : Bool := true
   /-- C20: what the client has loaded: topic ↦ partition count -/
   loaded : List (Bytes × Nat) := []
   -- C12
@@ -1359,14 +1361,25 @@ def judgeC04 (ops : List OpRec) : List String :=
     let s := { s with cluster := applySetup s.cluster op.setup }
     let s := trackSettings s op
     let (c', bodies) := truthBodies s.cluster op
+    let isFetch := match op.toks with
+      | _ :: "fetch_messages" :: _ => true
+      | ["poll"] => true
+      | _ => false
     let s := match op.toks with
-    | _ :: "fetch_messages" :: _ =>
+      | "consumer_create" :: from_ :: opts =>
+        let base := if from_ == "client" then s.crcOn else true
+        { s with consCrc := match lastOpt opts "crc" with
+            | some v => v == "1"
+            | none => base }
+      | _ => s
+    let on := if op.toks == ["poll"] then s.consCrc else s.crcOn
+    let s := if isFetch then
       -- in response order: the first partition set that reaches a bad checksum decides
       let sets : List Bytes := bodies.flatMap fun (x : Bytes × Request × RespBody) => match x.2.2 with
         | RespBody.fetch ts => ts.flatMap fun (tp : Bytes × List FetchPartResp) => tp.2.map fun (pr : FetchPartResp) => pr.set
         | _ => []
       let verdicts := sets.map fun (b : Bytes) => reachesBadCrc leanDec 4 (b.length + 1) b
-      if s.crcOn then
+      if on then
         match verdicts.find? (fun (v : Option Bool) => v != some false) with
         | some (some true) =>
           if op.result == "err Kafka(2)" then s
@@ -1377,7 +1390,7 @@ def judgeC04 (ops : List OpRec) : List String :=
         if verdicts.all (fun (v : Option Bool) => v.isSome) && op.result == "err Kafka(2)" then
           viol s "C04-rejected-with-validation-off" op "corrupt-message error although validation is disabled"
         else s
-    | _ => s
+      else s
     { s with cluster := c' }) ({} : JSt)
   s.out
 
@@ -1851,7 +1864,8 @@ def judge (prop : String) (lines : List String) : List String :=
   | "C11" => judgeC11 ops
   | "C14" => judgeC14 ops
   | "C20" => judgeC20 ops
-  | "C16" => judgeC16 ops
+  -- the CRC setting is judged by its effect too (C04's demand, with the setting the builder / setters determine)
+  | "C16" => judgeC16 ops ++ (judgeC04 ops).map fun (l : String) => l.replace "C04-" "C16-crc-setting-"
   | "C07" => judgeC07 ops
   | "C19" => judgeC19 ops
   | "C05" => judgeC05 ops
